@@ -22,21 +22,29 @@ def main():
         if r.returncode != 0:
             print("PATCH FAILED", r.stdout, r.stderr)
             return 2
-        def run(p):
-            r = subprocess.run(["/verif/vcheck", "run", p, "--root", tmp, "--evidence-dir", tmp + "/ev", "--replay-dir", tmp + "/rp", "--jobs", "4"], capture_output=True, text=True, cwd="/verif")
-            keys = [l.strip()[5:] for l in r.stdout.splitlines() if l.strip().startswith("key: ")]
-            errs = [l for l in r.stdout.splitlines() if l.startswith("ANALYSIS-ERROR")]
-            return p, r.returncode, keys, errs
+        # one pool for all requested properties: context graphs are shared between them (vcheck multi)
+        r = subprocess.run(["/verif/vcheck", "multi"] + props + ["--root", tmp], capture_output=True, text=True, cwd="/verif")
         caught = []
-        with ThreadPoolExecutor(4) as ex:
-            for p, code, keys, errs in ex.map(run, props):
-                if code != 0:
-                    caught.append(p)
-                    print(f"{p}: exit={code}")
-                    for k in keys[:8]:
-                        print("    ", k[:200])
-                    for e in errs[:3]:
-                        print("    ", e[:300])
+        cur = None
+        shown = 0
+        for l in r.stdout.splitlines():
+            if len(l) > 4 and l[0] == "C" and ": exit=" in l:
+                cur, code = l.split(": exit=")
+                shown = 0
+                if code.strip() != "0":
+                    caught.append(cur)
+                    print(f"{cur}: exit={code.strip()}")
+                else:
+                    cur = None
+            elif cur is not None and l.strip().startswith("key: ") and shown < 8:
+                print("     " + l.strip()[5:][:200])
+                shown += 1
+            elif cur is not None and l.strip().startswith("ANALYSIS-ERROR") and shown < 11:
+                print("     " + l.strip()[:300])
+                shown += 1
+        if r.returncode not in (0, 1, 2) or (not r.stdout.strip()):
+            print("     ANALYSIS-ERROR: vcheck multi failed:", (r.stdout + r.stderr)[-400:])
+            caught.append("vcheck")
         print("DETECTED BY:", caught or "NONE")
         return 0
     finally:
